@@ -11,6 +11,7 @@ from sylvia's output.  Output is committed; `gen_corpus.py --check` regenerates 
 """
 import os
 import random
+import json
 import sys
 
 CORPUS_SEED = 20261002
@@ -148,10 +149,16 @@ RET_TYPES = ["String", "u64", "QResp", "bool", "Vec<u32>"]
 
 
 class Arg:
-    def __init__(self, name, ty):
+    def __init__(self, name, ty, default=None):
         self.name = name
         self.ty = ty
         self.wire = name[2:] if name.startswith("r#") else name
+        # (rust fn path, JSON text of its value) of a forwarded #[serde(default = "..")]
+        self.default = default
+
+    def decl(self, ty=None):
+        attr = '#[serde(default = "%s")] ' % self.default[0] if self.default else ""
+        return "%s%s: %s" % (attr, self.name, ty or self.ty)
 
 
 class Reply:
@@ -233,6 +240,7 @@ class Contract:
         tags=(),
         remote_slots=(),
         legacy_ctx=False,
+        stateful=False,
     ):
         self.mod = mod
         self.name = cc_upper_camel(mod)
@@ -260,6 +268,9 @@ class Contract:
         self.entry_points = entry_points
         self.tags = list(tags)
         self.legacy_ctx = legacy_ctx  # own handlers take the deprecated sylvia::types::*Ctx
+        self.stateful = stateful  # the contract value carries a tag and a call counter in memory
+        if stateful:
+            self.tags.append("stateful")
         self.cid = "%s::%s" % (family, mod)
 
     def all_handlers(self):
@@ -317,16 +328,26 @@ def ty_in(ty, generic_name="T", concrete=None):
 
 
 def rust_args(args, self_assoc=False):
-    return "".join(", %s: %s" % (a.name, a.ty) for a in args)
+    return "".join(", " + a.decl() for a in args)
+
+
+# set while the text of a contract whose value carries in-memory state is printed
+STATEFUL = [False]
 
 
 def json_args(args):
-    return "json!({%s})" % ", ".join('"%s": j(&%s)' % (a.wire, a.name) for a in args)
+    members = ['"%s": j(&%s)' % (a.wire, a.name) for a in args]
+    if STATEFUL[0]:
+        members.append('"__self": self.echo_self()')
+    return "json!({%s})" % ", ".join(members)
 
 
 def ret_expr(h, hid):
     """value an echo query returns: a function of its arguments"""
+    keep = STATEFUL[0]
+    STATEFUL[0] = False
     key = 'format!("%s|{}", %s)' % (hid, json_args([a for a in h.args if a.name != "fail"]))
+    STATEFUL[0] = keep
     if h.ret == "String":
         return key
     if h.ret == "u64":
@@ -408,6 +429,9 @@ def reply_params(h):
                     )
             else:
                 echo.append('"data": j(&data)')
+            if r.data in ("RawOpt", "Opt", "InstantiateOpt"):
+                # `Some(None)` of an optional typed value and `None` both encode as null
+                echo.append('"data_some": json!(data.is_some())')
     elif r.on == "error":
         params.append("error: String")
         echo.append('"error": j(&error)')
@@ -572,7 +596,7 @@ def emit_iface(i):
     m = "<%s>" % i.msg_ty() if i.msg_ty() != "Empty" else ""
     for h in i.handlers:
         lines.append("        %s" % msg_attr(h))
-        args = "".join(", %s: %s" % (a.name, "Self::T" if a.ty == "T" else a.ty) for a in h.args)
+        args = "".join(", " + a.decl("Self::T" if a.ty == "T" else a.ty) for a in h.args)
         if h.kind == "query":
             ret = "Self::T" if h.ret == "T" else h.ret
             lines.append("        fn %s(&self, ctx: %s%s%s) -> Result<%s, Self::Error>;" % (h.fn, CTX[h.kind], q, args, ret))
@@ -602,6 +626,14 @@ def reply_table(c):
 
 
 def emit_contract(c, iface_path):
+    STATEFUL[0] = c.stateful
+    try:
+        return emit_contract_inner(c, iface_path)
+    finally:
+        STATEFUL[0] = False
+
+
+def emit_contract_inner(c, iface_path):
     L = []
     w = L.append
     w("pub mod %s {" % c.mod)
@@ -634,6 +666,21 @@ def emit_contract(c, iface_path):
     # the contract type
     if c.generic:
         w("    pub struct %s<T>(std::marker::PhantomData<T>);" % c.name)
+    elif c.stateful:
+        w("    pub struct %s { tag: u64, calls: std::cell::Cell<u64> }" % c.name)
+        w(
+            """    impl %s {
+        /// a value other than the one `new()` builds: deployments that are handed a contract
+        /// value must run the handlers on that very value
+        pub fn with_tag(tag: u64) -> Self { Self { tag, calls: std::cell::Cell::new(0) } }
+        fn echo_self(&self) -> Value {
+            let n = self.calls.get();
+            self.calls.set(n + 1);
+            json!({"tag": self.tag, "calls": n})
+        }
+    }"""
+            % c.name
+        )
     else:
         w("    pub struct %s;" % c.name)
 
@@ -726,7 +773,10 @@ def emit_contract(c, iface_path):
         w("        pub fn new() -> Self { bb::constructed(CID); Self(std::marker::PhantomData) }")
     else:
         w("    impl %s {" % c.name)
-        w("        pub fn new() -> Self { bb::constructed(CID); Self }")
+        if c.stateful:
+            w("        pub fn new() -> Self { bb::constructed(CID); Self { tag: 0, calls: std::cell::Cell::new(0) } }")
+        else:
+            w("        pub fn new() -> Self { bb::constructed(CID); Self }")
     q = "<CQuery>" if c.custom_chain else ""
     m = "<CMsg>" if c.custom_chain else ""
     for h in c.handlers:
@@ -815,7 +865,10 @@ def emit_contract(c, iface_path):
 
 
 def spec_args(args, tmap=None):
-    return "&[%s]" % ", ".join('ArgSpec { name: "%s", ty: "%s" }' % (a.wire, (tmap or {}).get(a.ty, a.ty)) for a in args)
+    return "&[%s]" % ", ".join(
+        'ArgSpec { name: "%s", ty: "%s", default: %s }' % (a.wire, (tmap or {}).get(a.ty, a.ty), json.dumps(a.default[1] if a.default else ""))
+        for a in args
+    )
 
 
 def emit_spec(c):
@@ -922,10 +975,10 @@ def emit_entry_glue(c, iface_path):
             ep += ".with_migrate(%s)" % ep_fn("migrate")
         ep = "1 => Some(Box::new(%s))," % ep
     store_body = """match flavour {
-            0 => Some(Box::new(%s::new())),
+            0 => Some(Box::new(%s::%s)),
             %s
             _ => None,
-        }""" % (ST.replace("<", "::<"), ep)
+        }""" % (ST.replace("<", "::<"), "with_tag(bb::next_tag())" if c.stateful else "new()", ep)
     w(
         "    pub fn store(flavour: u8) -> Option<Box<dyn sylvia::cw_multi_test::Contract<%s, %s>>> {\n        %s\n    }"
         % (C, Q, store_body)
@@ -1430,6 +1483,37 @@ def family_f3(rng):
             tags=("data",),
         )
     )
+    # tables at the edges: a single name (always / success only / explicit always), more names
+    # than methods, payload values that only the chain's own JSON dialect carries (128 bit integers)
+    cs.append(mk("single_a", [Handler("reply", "only", reply=Reply([], "always", **PAY_ONE))]))
+    cs.append(mk("single_b", [Handler("reply", "only_ok", reply=Reply([], "success", data="Opt", data_ty="String", **PAY_RAW))], err="std", tags=("data",)))
+    fin = Reply(["fin"], "always", **PAY_RAW)
+    fin.explicit_always = True
+    cs.append(mk("single_c", [Handler("reply", "on_fin", reply=fin)]))
+    cs.append(mk("multi_a", [Handler("reply", "any", reply=Reply(["m1", "m2", "m3"], "always", **PAY_ONE))]))
+    cs.append(
+        mk(
+            "multi_b",
+            [
+                Handler("reply", "oks", reply=Reply(["m1", "m2"], "success", **PAY_THREE)),
+                Handler("reply", "errs", reply=Reply(["m2", "m3", "m4"], "error", **PAY_THREE)),
+            ],
+            err="std",
+        )
+    )
+    PAY_BIG = dict(payload=[Arg("amount", "u128"), Arg("delta", "i128"), Arg("script", "Script")])
+    cs.append(
+        mk(
+            "names_b",
+            [
+                Handler("reply", "big_ok", reply=Reply(["big"], "success", data="Opt", data_ty="Pt", **PAY_BIG)),
+                Handler("reply", "big_err", reply=Reply(["big"], "error", **PAY_BIG)),
+                Handler("reply", "lone_big", reply=Reply([], "always", payload=[Arg("amount", "u128")])),
+                Handler("reply", "opt_s", reply=Reply([], "success", data="Opt", data_ty="String", **PAY_ONE)),
+            ],
+            tags=("data",),
+        )
+    )
     return [], cs
 
 
@@ -1681,6 +1765,55 @@ def family_f1(rng):
         pool = [lib[n] for n in ("alpha", "beta", "delta", "eps")]
         uses = [Use(i, err=rng.choice(["std", "own"])) for i in rng.sample(pool, rng.randint(0, 3))]
         cs.append(Contract("pr" + "abcd"[k], "f1", std_handlers(rng, extra=extra, migrate=rng.random() < 0.7), uses=uses, err=rng.choice(["own", "std"]), tags=T + ("regular",)))
+    # parameters with a forwarded #[serde(default = "..")] whose value is not None: an omitted
+    # member and an explicit null are different arguments (and a None handed to a helper must
+    # arrive as None)
+    D7 = ("rt::types::some7", "7")
+    DW = ("rt::types::some_word", '"dflt"')
+    dflt = Iface(
+        "dflt",
+        [
+            Handler("exec", "dflt_exec", [Arg("level", "Option<u32>", default=D7)]),
+            Handler("query", "dflt_query", [Arg("level", "Option<u32>", default=D7), Arg("k", "String")], ret="String"),
+            Handler("sudo", "dflt_sudo", [Arg("word", "Option<String>", default=DW)]),
+        ],
+    )
+    lib["dflt"] = dflt
+    cs.append(
+        Contract(
+            "pv",
+            "f1",
+            [
+                Handler("instantiate", "instantiate", [Arg("level", "Option<u32>", default=D7), Arg("a", "u32")]),
+                Handler("migrate", "migrate", [Arg("word", "Option<String>", default=DW)]),
+                Handler("exec", "go"),
+                Handler("exec", "tune", [Arg("level", "Option<u32>", default=D7), Arg("note", "Option<String>")]),
+                Handler("exec", "rename", [Arg("word", "Option<String>", default=DW)]),
+                Handler("query", "probe", [Arg("x", "u32")], ret="u64", failarg=True),
+                Handler("query", "tuned", [Arg("level", "Option<u32>", default=D7)], ret="String"),
+                Handler("query", "no_args", ret="u64"),
+                Handler("query", "only_opt", [Arg("memo", "Option<String>")], ret="String"),
+                Handler("sudo", "nudge", [Arg("n", "u64")]),
+                Handler("sudo", "retune", [Arg("level", "Option<u32>", default=D7), Arg("n", "u32")]),
+            ],
+            uses=[Use(dflt)],
+            err="own",
+            tags=T + ("regular", "defaults"),
+        )
+    )
+    # a contract value with in-memory state: the deployment that is handed a value must run
+    # the handlers on it, the entry points on what `new()` builds
+    cs.append(
+        Contract(
+            "ps",
+            "f1",
+            std_handlers(rng, extra=[Handler("exec", "bump", [Arg("n", "u32")]), Handler("query", "seen", ret="u64"), Handler("sudo", "poke_s")]),
+            uses=[Use(lib["alpha"])],
+            err="own",
+            stateful=True,
+            tags=T + ("regular",),
+        )
+    )
     return list(lib.values()), cs
 
 
